@@ -5,6 +5,7 @@
 import PaletteProofs.Real
 import PaletteProofs.Lemmas.RgbTables
 import PaletteProofs.Lemmas.Hexcone
+import PaletteProofs.Lemmas.HslGuard
 import PaletteModel.Color.RgbFamily
 import PaletteSpec.Rgb
 import Mathlib.Tactic.FieldSimp
@@ -149,6 +150,8 @@ theorem rgbToHslMask_eq_scalar (c : V3 ℝ) :
     rgbToHslMask c = ⟨normalizeUnsigned (rgbToHsl c).c0, (rgbToHsl c).c1, (rgbToHsl c).c2⟩ := by
   unfold rgbToHslMask rgbToHsl
   generalize max0 c.c0 = r; generalize max0 c.c1 = g; generalize max0 c.c2 = b
+  -- both branches guard the selected divisor (c404fc5); at ℝ the guarded quotient is the quotient (`d / 0 = 0`)
+  simp only [RealScalar.hslSat_eq, RealScalar.hslSatMask_eq]
   obtain ⟨hmax, hmin⟩ := smax_smin_eq r g b
   simp only [hmax, hmin, eqv_iff]
   by_cases hne : (maxMinSep r g b).max = (maxMinSep r g b).min
@@ -170,6 +173,7 @@ theorem rgbToHslMask_eq_scalar (c : V3 ℝ) :
 theorem rgbToHsl_eq_spec (r g b : ℝ) (hr : 0 ≤ r) (hg : 0 ≤ g) (hb : 0 ≤ b) :
     normalizeUnsigned (rgbToHsl ⟨r, g, b⟩).c0 = hue r g b ∧ (rgbToHsl ⟨r, g, b⟩).c1 = hslS r g b ∧ (rgbToHsl ⟨r, g, b⟩).c2 = hslL r g b := by
   unfold rgbToHsl
+  simp only [RealScalar.hslSat_eq]   -- the guard `divisor == 0` (c404fc5); dead on the gamut: `rgbToHsl_guard_dead` below
   simp only [max0_of_nonneg hr, max0_of_nonneg hg, max0_of_nonneg hb, eqv_iff]
   obtain ⟨hM, hm⟩ := cmax_cmin_eq r g b
   by_cases hne : (maxMinSep r g b).max = (maxMinSep r g b).min
@@ -195,6 +199,61 @@ theorem rgbToHsl_eq_spec (r g b : ℝ) (hr : 0 ≤ r) (hg : 0 ≤ g) (hb : 0 ≤
         have : (maxMinSep r g b).max + (maxMinSep r g b).min ≤ 1 := by norm_num at hsum; exact hsum
         rw [abs_of_nonpos (by linarith)]; congr 1; ring
     · simp only; unfold hslL; rw [hM, hm]; norm_num
+
+/-- **the guard added by palette c404fc5 is dead on the gamut.**  `Rgb → Hsl` returns saturation 0 when the divisor it selected,
+    `if max + min > 1 { (1 − max) + (1 − min) } else { max + min }`, is exactly 0 (out-of-gamut `max = 1 + δ`, `min = 1 − δ`:
+    finding `hsl-white-inf-C07`).  On the unit cube with `max ≠ min` that divisor -- as the code associates it -- is strictly
+    positive, so the guard never fires there and the saturation is the published quotient (`rgbToHsl_eq_spec`): the repair cannot
+    change the value of any in-gamut colour.  (`1 − max ≥ 0`, `1 − min > 0`, `max + min > 0` hold for floats as well: differences of
+    distinct floats and sums of a non-negative and a positive float are never 0.) -/
+theorem rgbToHsl_guard_dead (r g b : ℝ) (hr : 0 ≤ r) (hg : 0 ≤ g) (hb : 0 ≤ b) (hr1 : r ≤ 1) (hg1 : g ≤ 1) (hb1 : b ≤ 1)
+    (hne : (maxMinSep r g b).max ≠ (maxMinSep r g b).min) :
+    0 < (if 1.0 < (maxMinSep r g b).max + (maxMinSep r g b).min
+          then (1.0 - (maxMinSep r g b).max) + (1.0 - (maxMinSep r g b).min)
+          else (maxMinSep r g b).max + (maxMinSep r g b).min) ∧
+    (rgbToHsl ⟨r, g, b⟩).c1 = ((maxMinSep r g b).max - (maxMinSep r g b).min) /
+        (if 1.0 < (maxMinSep r g b).max + (maxMinSep r g b).min
+          then (1.0 - (maxMinSep r g b).max) + (1.0 - (maxMinSep r g b).min)
+          else (maxMinSep r g b).max + (maxMinSep r g b).min) := by
+  obtain ⟨b1, b2, b3, b4, b5, b6⟩ := maxMin_bounds r g b
+  have hmin := min_nonneg r g b hr hg hb
+  have hM1 : (maxMinSep r g b).max ≤ 1 := by
+    rcases cases_order r g b with ⟨_, _, _, hp⟩ | ⟨_, _, _, hp⟩ | ⟨_, _, hp⟩ | ⟨_, _, hp⟩ | ⟨_, _, _, hp⟩ | ⟨_, _, _, hp⟩ <;>
+      rw [hp] <;> simp only <;> assumption
+  have hlt : (maxMinSep r g b).min < (maxMinSep r g b).max := lt_of_le_of_ne (le_trans b1 b2) (Ne.symm hne)
+  have hpos : 0 < (if 1.0 < (maxMinSep r g b).max + (maxMinSep r g b).min
+          then (1.0 - (maxMinSep r g b).max) + (1.0 - (maxMinSep r g b).min)
+          else (maxMinSep r g b).max + (maxMinSep r g b).min) := by
+    split_ifs
+    · have h1 : (0 : ℝ) ≤ 1.0 - (maxMinSep r g b).max := by norm_num; exact hM1
+      have h2 : (0 : ℝ) < 1.0 - (maxMinSep r g b).min := by norm_num; linarith
+      exact add_pos_of_nonneg_of_pos h1 h2
+    · linarith
+  refine ⟨hpos, ?_⟩
+  unfold rgbToHsl
+  simp only [max0_of_nonneg hr, max0_of_nonneg hg, max0_of_nonneg hb, eqv_iff]
+  rw [if_pos hne]; simp only
+  -- the guard's condition is false: this is the `else` arm of `if divisor == 0`
+  rw [if_neg (by have e0 : (0.0 : ℝ) = 0 := by norm_num
+                 rw [e0]; exact hpos.ne')]
+
+/-- non-vacuity: orange `(1, 0.5, 0)`: `max = 1 ≠ 0 = min` -/
+example : (0 : ℝ) ≤ 1 ∧ (0 : ℝ) ≤ 0.5 ∧ (0 : ℝ) ≤ 0 ∧ (1 : ℝ) ≤ 1 ∧ (0.5 : ℝ) ≤ 1 ∧ (0 : ℝ) ≤ 1 ∧
+    (maxMinSep (1 : ℝ) 0.5 0).max ≠ (maxMinSep (1 : ℝ) 0.5 0).min := by
+  obtain ⟨b1, b2, b3, b4, b5, b6⟩ := maxMin_bounds (1 : ℝ) 0.5 0
+  refine ⟨by norm_num, by norm_num, by norm_num, by norm_num, by norm_num, by norm_num, ?_⟩
+  intro e; rw [e] at b2; linarith
+
+/-- the same for the mask-generic branch (`red.max(green).max(blue)`, `red.min(green).min(blue)`): on the unit cube with
+    `min ≠ max` the divisor it selects is strictly positive, so `min.eq(&max) | divisor.eq(&T::zero())` is `min.eq(&max)` there -/
+theorem rgbToHslMask_guard_dead (r g b : ℝ) (hr : 0 ≤ r) (hg : 0 ≤ g) (hb : 0 ≤ b) (hr1 : r ≤ 1) (hg1 : g ≤ 1) (hb1 : b ≤ 1)
+    (hne : Scalar.min (Scalar.min r g) b ≠ Scalar.max (Scalar.max r g) b) :
+    0 < (if 1.0 < Scalar.max (Scalar.max r g) b + Scalar.min (Scalar.min r g) b
+          then (1.0 - Scalar.max (Scalar.max r g) b) + (1.0 - Scalar.min (Scalar.min r g) b)
+          else Scalar.max (Scalar.max r g) b + Scalar.min (Scalar.min r g) b) := by
+  obtain ⟨hmax, hmin⟩ := smax_smin_eq r g b
+  rw [hmax, hmin] at hne ⊢
+  exact (rgbToHsl_guard_dead r g b hr hg hb hr1 hg1 hb1 (Ne.symm hne)).1
 
 /-! ### `Rgb ← Hsv`: the chroma/zone form of the code = Smith's sextant form `(i, f, p, q, t)`, every hue, saturation, value -/
 
